@@ -127,16 +127,17 @@ pub fn run_child(args: &[String], sink: &mut dyn FnMut(Value)) -> End {
     end
 }
 
-/// `record <seed> <n_per_combo> <out.ndjson> [combo:sc ...]` — records scenarios 0..n of every combo
+/// `record <seed> <n_per_combo> <out.ndjson> <tier> [combo:sc ...]` — records scenarios 0..n of every combo
 /// (or exactly the listed scenarios) and writes the events, including timeout/crash events.
 pub fn record_main(args: &[String]) -> i32 {
     let seed = args[0].clone();
     let n: u64 = args[1].parse().unwrap();
     let path = &args[2];
+    let tier = args[3].clone();
     let mut out = std::io::BufWriter::new(std::fs::File::create(path).expect("create output"));
     let mut jobs: Vec<(u64, u64, u64)> = vec![];
-    if args.len() > 3 {
-        for a in &args[3..] {
+    if args.len() > 4 {
+        for a in &args[4..] {
             let (c, s) = a.split_once(':').expect("combo:sc");
             let (c, s): (u64, u64) = (c.parse().unwrap(), s.parse().unwrap());
             jobs.push((c, s, s + 1));
@@ -164,6 +165,7 @@ pub fn record_main(args: &[String]) -> i32 {
                 cur.to_string(),
                 to.to_string(),
                 if stuck >= SKIP_AFTER { "1".to_string() } else { "0".to_string() },
+                tier.clone(),
             ];
             let mut last_sc = cur;
             let end = {
@@ -204,7 +206,7 @@ pub fn record_main(args: &[String]) -> i32 {
             }
         }
     }
-    if args.len() <= 3 {
+    if args.len() <= 4 {
         for v in crate::rec::frobcert_events() {
             serde_json::to_writer(&mut out, &v).unwrap();
             out.write_all(b"\n").unwrap();
